@@ -571,3 +571,135 @@ def case_affine(draw, max_extent=6, coeffs=(1, 1, 2, 2, 3, 4), allow_partition=T
             "part_rank": out_affine_rank if part_levels else None, "follower": follower if part_levels else None}
     case.update(rt)
     return case
+
+
+# --------------------------------------------------------------------------
+# spacetime (C16, C05 text part) and cascades (C05)
+
+
+@st.composite
+def spacetime_for(draw, loop_ranks, allow_slip=True, styles=("", ".pos", ".coord")):
+    """split the loop ranks into space / time, each stamped R, R.pos or R.coord"""
+    ranks = list(draw(st.permutations(loop_ranks))) if draw(st.booleans()) else list(loop_ranks)
+    k = draw(st.integers(0, len(ranks)))
+    stamp = lambda r: r + draw(st.sampled_from(styles))  # noqa: E731
+    stt = {"space": [stamp(r) for r in ranks[:k]], "time": [stamp(r) for r in ranks[k:]]}
+    if allow_slip and draw(st.integers(0, 3)) == 0:
+        stt["opt"] = "slip"
+    return stt
+
+
+def default_loop_ranks(spec, expr):
+    """index variables in order of first appearance (output first), partitioned ranks replaced by their levels"""
+    out = S.out_name(expr)
+    parts = dict((k, d) for k, d in (spec.get("partitioning") or {}).get(out, []))
+    res = []
+    for v in S.expr_vars(expr):
+        r = v.upper()
+        if r in parts:
+            res += levels_of(r, len(parts[r]))
+        else:
+            res.append(r)
+    return res
+
+
+@st.composite
+def cascade(draw, n_min=2, n_max=4, max_vars=4, allow_partition=True, ranks=RANKS):
+    """2-4 Einsums; Einsum i may read any declared input and any earlier output; per-Einsum mappings"""
+    n = draw(st.integers(n_min, n_max))
+    fresh = iter(list("ABCDEFGH") + [x + y for x in "ABCDEFGH" for y in "ABCDEFGH"])
+    pool = {}            # name -> declared ranks (inputs and earlier outputs)
+    produced = []
+    decls, exprs = [], []
+    loop_order, partitioning = {}, {}
+    sizes_needed = []    # (name, lo, hi-rank) handled at runtime: store symbolic names with ranks
+    part_info = {}
+    for i in range(n):
+        out = "T%d" % i if i < n - 1 else "Z"
+        cand = list(pool)
+        reuse = []
+        if cand:
+            want_prev = [p for p in produced if p in pool]
+            if want_prev and draw(st.integers(0, 3)) > 0:
+                reuse.append(draw(st.sampled_from(want_prev)))
+            more = [c for c in cand if c not in reuse]
+            if more and draw(st.booleans()):
+                reuse.append(draw(st.sampled_from(more)))
+        vars_ = []
+        for t in reuse:
+            for r in pool[t]:
+                if r.lower() not in vars_:
+                    vars_.append(r.lower())
+        if len(vars_) > max_vars:
+            # too many ranks: drop reused tensors until it fits
+            while reuse and len(vars_) > max_vars:
+                reuse.pop()
+                vars_ = []
+                for t in reuse:
+                    for r in pool[t]:
+                        if r.lower() not in vars_:
+                            vars_.append(r.lower())
+        extra = [r.lower() for r in draw(st.permutations(list(ranks))) if r.lower() not in vars_]
+        nextra = draw(st.integers(0 if vars_ else 1, max(0 if vars_ else 1, min(2, max_vars - len(vars_)))))
+        vars_ = vars_ + extra[:nextra]
+        nterms = draw(st.sampled_from([1, 1, 1, 2]))
+        terms = [[] for _ in range(nterms)]
+        for t in reuse:
+            terms[draw(st.integers(0, nterms - 1))].append({"t": t, "idx": [plain(r.lower()) for r in pool[t]]})
+        for tf in terms:
+            covered = set(v for f in tf for ie in f["idx"] for v in S.iexpr_vars(ie))
+            missing = [v for v in vars_ if v not in covered]
+            nnew = draw(st.integers(1 if (missing or not tf) else 0, 2))
+            for k in range(nnew):
+                rs = list(missing) if k == 0 else []
+                for v in vars_:
+                    if v not in rs and draw(st.integers(0, 2)) == 0:
+                        rs.append(v)
+                rs = list(draw(st.permutations(rs))) if rs else []
+                name = next(fresh)
+                pool[name] = [v.upper() for v in rs]
+                decls.append([name, pool[name]])
+                tf.insert(draw(st.integers(0, len(tf))), {"t": name, "idx": [plain(v) for v in rs]})
+        out_vars = draw(subset(vars_))
+        out_vars = list(draw(st.permutations(out_vars))) if out_vars else []
+        pool[out] = [v.upper() for v in out_vars]
+        decls.append([out, pool[out]])
+        produced.append(out)
+        expr = {"out": [out, [plain(v) for v in out_vars]],
+                "terms": [{"take": None, "factors": tf} for tf in terms]}
+        exprs.append(expr)
+        part_info[out] = (expr, [v.upper() for v in vars_])
+    spec = {"decl": [list(d) for d in draw(st.permutations(decls))], "exprs": exprs,
+            "rank_order": draw(rank_orders(decls)), "loop_order": {}, "partitioning": {}, "spacetime": {}, "extra": {}}
+    return spec, part_info
+
+
+@st.composite
+def case_cascade(draw, max_extent=5, with_spacetime=False, **kw):
+    spec, part_info = draw(cascade(**kw))
+    rt = draw(runtime(spec, max_extent=max_extent))
+    for out, (expr, vs) in part_info.items():
+        groups = []
+        parts = []
+        carried = [v.upper() for v in input_carried_vars(expr)]
+        single = len(expr["terms"]) == 1
+        for r in vs:
+            if r in carried and draw(st.integers(0, 3)) == 0:
+                if single and draw(st.booleans()):
+                    dirs = draw(occ_stack(r, rt["extents"][r], holders(expr, r.lower()), rt["sizes"]))
+                else:
+                    dirs, sizes = draw(shape_stack(r, rt["extents"][r], 2))
+                    rt["sizes"].update(sizes)
+                parts.append([r, dirs])
+                groups.append(levels_of(r, len(dirs)))
+            else:
+                groups.append([r])
+        if parts:
+            spec["partitioning"][out] = parts
+        if groups and (with_spacetime or draw(st.integers(0, 3)) > 0):
+            spec["loop_order"][out] = draw(interleave(list(draw(st.permutations(groups)))))
+            if with_spacetime and draw(st.integers(0, 2)) > 0:
+                spec["spacetime"][out] = draw(spacetime_for(spec["loop_order"][out]))
+    case = {"spec": spec}
+    case.update(rt)
+    return case
